@@ -457,7 +457,7 @@ fn sweep_type_scope<V: VT>(scope: Scope, which: &str) -> Acc {
     ];
     let cands = V::cands();
     let nc = cands.len();
-    let prop: &str = if which == "C09" { "C09" } else { "C06" };
+    let prop: &str = if which == "C09" { "C09" } else { "C06" }; // the C07 pass executes the C06 sweep on a thinned set of assignments
     let mut acc = e2::run_scope(&scope, &embs, |ctx, acc| {
         let n = ctx.pats.len();
         // every function patterns -> candidates
@@ -474,7 +474,7 @@ fn sweep_type_scope<V: VT>(scope: Scope, which: &str) -> Acc {
                 continue;
             }
             // the C09 pass only needs a few assignments; the C06 pass needs them all
-            let step = if which == "C09" { total.max(1).div_ceil(3) } else { 1 };
+            let step = if which == "C09" { total.max(1).div_ceil(3) } else if which == "C07" { total.max(1).div_ceil(2) } else { 1 };
             for kind in Kind::ALL {
                 for code in (0..total).step_by(step.max(1)) {
                     let assign: Vec<usize> = (0..n).map(|i| (code / nc.pow(i as u32)) % nc).collect();
